@@ -230,6 +230,22 @@ def expected (ev : Ev) : Option (List Pt) := do
       let l := evalE lb x / (d : Rat)
       let u := evalE ub x / (d : Rat)
       if l ≤ u then [ptUpd x v l, ptUpd x v u, ptUpd x v ((l + u) / 2)] else [])
+  else if op == "bapre" then
+    let v ← (a.getD 0 "").toNat?
+    let lb ← parseExpr (a.getD 1 "")
+    let ub ← parseExpr (a.getD 2 "")
+    let d ← (a.getD 3 "").toInt?
+    -- z = a point of the box (the image), x = a source: differs in coordinate v, lb(x)/d <= z_v <= ub(x)/d
+    some (xs.flatMap fun z =>
+      let y := z.getD v 0
+      let sols (e : LinExpr) : List Rat :=
+        let ev := e.coeff v
+        if ev != 0 then
+          let rest := evalE e z - (ev : Rat) * y
+          let s := ((d : Rat) * y - rest) / (ev : Rat); [s, s + 1, s - 1, s + 1 / 9, s - 1 / 9] else []
+      let ws : List Rat := [y, 0, 1, -3, 10] ++ sols lb ++ sols ub
+      (ws.map fun w => ptUpd z v w).filter fun x =>
+        evalE lb x / (d : Rat) ≤ y && y ≤ evalE ub x / (d : Rat))
   else if op == "apre" || op == "gapre" then
     let v ← (a.getD 0 "").toNat?
     let r ← if op == "apre" then some Rel.eq else parseRel (a.getD 1 "")
@@ -292,11 +308,13 @@ inductive Out where
   | box (b : Box)
   | boolBox (r : Bool) (b : Box)
   | throws
+  | dies
 
 def Out.show (p : Policy) : Out → String
   | .box b => showBox p b
   | .boolBox r b => (if r then "T " else "F ") ++ showBox p b
   | .throws => "X"
+  | .dies => "CRASH"
 
 def runModel (ev : Ev) : Option Out := do
   let cfg := ev.ty.cfg
@@ -343,6 +361,14 @@ def runModel (ev : Ev) : Option Out := do
     let ub ← parseExpr (a.getD 2 "")
     let d ← (a.getD 3 "").toInt?
     some (.box (boundedAffineImage cfg b v lb ub d))
+  else if op == "bapre" then
+    let v ← (a.getD 0 "").toNat?
+    let lb ← parseExpr (a.getD 1 "")
+    let ub ← parseExpr (a.getD 2 "")
+    let d ← (a.getD 3 "").toInt?
+    match boundedAffinePreimage cfg b v lb ub d with
+    | some b' => some (.box b')
+    | none => some .dies
   else if op == "unc" then
     let v ← (a.getD 0 "").toNat?
     some (.box (unconstrain cfg b v))
@@ -384,6 +410,11 @@ def branchOf (ev : Ev) : String :=
       match parseExpr (a.getD 0 "") with
       | some l => "lhs" ++ toString (min l.terms.length 3) ++ "." ++ a.getD 1 ""
       | none => "?"
+    else if ev.op == "bapre" then
+      match (a.getD 0 "").toNat?, parseExpr (a.getD 1 ""), parseExpr (a.getD 2 "") with
+      | some v, some l, some u => (if l.coeff v == 0 then "lb0" else "lb1") ++ (if u.coeff v == 0 then "ub0" else "ub1")
+          ++ (if l.coeff v == u.coeff v then ".same" else ".diff") ++ (if isUniverseIv ev.ty.cfg.p (b.get v) then ".univ" else "")
+      | _, _, _ => "?"
     else if ev.op == "baff" then
       match (a.getD 0 "").toNat?, parseExpr (a.getD 1 ""), parseExpr (a.getD 2 "") with
       | some v, some l, some u => (if l.coeff v == 0 then "lb0" else if u.coeff v == 0 then "ub0" else "both")
@@ -412,7 +443,11 @@ def processLine (noJudge : Bool) (line : String) : List String :=
         if res.isEmpty then [s!"CRASH {id} {op} {branchOf ev}"]
         else
           let want := " ".intercalate res
-          let wantS := if want.startsWith "X:" then "X" else want
+          let wantS := if want.startsWith "X:" then "X" else if want.startsWith "CRASH:" then "CRASH" else want
+          if wantS == "CRASH" then
+            let predicted := match runModel ev with | some .dies => "predicted" | _ => "unpredicted"
+            [s!"CRASH {id} {op} {branchOf ev} {predicted} {want}"]
+          else
           let p := ty.cfg.p
           -- (b) judge on the real output
           let jl : List String :=
